@@ -80,7 +80,9 @@ def ops(vals=VALS):
             # multi-key forms with the absent key first (a key the other side lacks must be skipped, not end the call)
             ('loadk', 'absent', 'k2'), ('loadk', 'k1', 'k2'), ('dumpk', 'absent', 'k1'), ('dumpk', 'k2', 'k1'),
             ('loadk', 'absent'), ('sync',), ('syncclear',), ('archived',), ('archived', False), ('archived', True),
-            ('openB',), ('openA',), ('drop',), ('bset', 'k1', VALS[1])]
+            ('openB',), ('openA',), ('drop',), ('bset', 'k1', VALS[1]),
+            # the `archive` property setter (what wrapper.archive(obj) uses), as opposed to open()
+            ('setB',), ('setA',)]
     return out
 
 
@@ -182,13 +184,16 @@ def apply(S, op):
                 if S.attached != 'NULL':
                     S.attached, S.parked = 'NULL', S.attached
                 c.archived(False)
-        elif k in ('openA', 'openB'):
+        elif k in ('openA', 'openB', 'setA', 'setB'):
             which = k[-1]
             if which == 'A' and S.null:
                 S.attached, S.parked = 'NULL', 'NULL'
             else:
                 S.attached, S.parked = which, 'NULL'
-            c.open(S.A if which == 'A' else S.B)
+            if k.startswith('open'):
+                c.open(S.A if which == 'A' else S.B)
+            else:
+                c.archive = S.A if which == 'A' else S.B
         elif k == 'drop':
             if S.attached == 'NULL' and S.parked == 'NULL':
                 lenient_valueerror = True
@@ -241,7 +246,7 @@ def nontrivial(S, op):
     k = op[0]
     if k in ('dump', 'load', 'sync', 'syncclear', 'dumpk', 'loadk'):
         return bool(S.mc) or bool(S.mA)
-    return k in ('archived', 'openA', 'openB', 'drop')
+    return k in ('archived', 'openA', 'openB', 'drop', 'setA', 'setB')
 
 
 def replay_hist(cfg, hist):
